@@ -264,10 +264,11 @@ func isNullValue(field protoreflect.FieldDescriptor) bool {
 // getParameter gets the value of a field on a message using the ident fields.
 // Optionally, an index can be provided to get the value of a repeated field.
 func getParameter(msg protoreflect.Message, fields []protoreflect.FieldDescriptor, index int) (string, error) {
-	// Traverse the message to the last field.
+	// Traverse the message to the last field. (Read-only: Mutable would create
+	// the intermediate messages in the caller's message, switching oneofs.)
 	leaf := msg
 	for _, field := range fields[:len(fields)-1] {
-		leaf = leaf.Mutable(field).Message()
+		leaf = leaf.Get(field).Message()
 	}
 	field := fields[len(fields)-1]
 
